@@ -5,7 +5,7 @@ import pywt
 from fractions import Fraction
 import symtorch
 from symtorch import poly as P, tensor as T
-from vlib import core, oracles, smt
+from vlib import core, oracles, smt, lincheck
 from harness import dwtlib as D
 
 QUICK_WAVES = ['haar', 'db2', 'db3', 'db4', 'db8', 'sym4', 'coif1', 'bior1.3', 'bior2.4', 'bior3.1', 'rbio1.3', 'dmey']
@@ -106,180 +106,41 @@ def _shape(cfg):
     return (cfg['B'], cfg['C'], cfg['N']) if cfg['dim'] == 1 else (cfg['B'], cfg['C'], cfg['H'], cfg['W'])
 
 
-def _oracle(cfg):
-    """-> per-slice rows: (yl_rows, [yh_rows]) as float arrays with last axis = slice input index"""
-    if cfg['dim'] == 1:
-        return oracles.wavedec_rows(cfg['wave'], cfg['mode'], cfg['N'], cfg['J'])
-    return oracles.wavedec2_rows(cfg['wave'], cfg['mode'], cfg['H'], cfg['W'], cfg['J'])
-
-
 def _module(pw, cfg):
     if cfg['dim'] == 1:
         return pw.DWT1DForward(J=cfg['J'], wave=cfg['wave'], mode=cfg['mode'])
     return pw.DWTForward(J=cfg['J'], wave=cfg['wave'], mode=cfg['mode'])
 
 
-def _ref_rows_for(cfg, band_rows, ids):
-    """band_rows: oracle array (band shape..., n_slice) -> list of Polys in the order of the impl tensor (B,C,band...)"""
-    B, C = cfg['B'], cfg['C']
-    per = band_rows.reshape(-1, band_rows.shape[-1])
-    rows = []
-    for b in range(B):
-        for c in range(C):
-            at = ids[b, c].reshape(-1)
-            rows.extend(core.ref_poly_rows(per, at))
-    return rows
+def case(cfg):
+    in_specs = [('x', _shape(cfg))]
 
+    def impl(pw, ts):
+        yl, yh = _module(pw, cfg)(ts[0])
+        return [('yl', yl)] + [('yh%d' % (j + 1), h) for j, h in enumerate(yh)]
 
-def _real_apply(cfg, x):
-    rpw = symtorch.real()
-    rt = symtorch.real_torch()
-    m = _module(rpw, cfg)
-    yl, yh = m(rt.tensor(x, dtype=rt.float64))
-    return yl, yh
+    def ref(arrs):
+        x = arrs[0]
+        if cfg['dim'] == 1:
+            c = pywt.wavedec(x, cfg['wave'], mode=cfg['mode'], level=cfg['J'], axis=-1)
+            return [c[0]] + [b for b in c[1:][::-1]]
+        c = pywt.wavedec2(x, cfg['wave'], mode=cfg['mode'], level=cfg['J'], axes=(-2, -1))
+        return [c[0]] + [np.stack(b, axis=-3) for b in c[1:][::-1]]
+    return in_specs, impl, ref
 
 
 def run_config(cfg):
     res = core.Result(cfg)
     core.begin()
-    rng = np.random.default_rng(12345)
     facts = _facts(cfg)
-    shape = _shape(cfg)
-    L = D.filt_len(cfg['wave'])
-    # ---- oracle -------------------------------------------------------------------------
-    try:
-        o_yl, o_yh = _oracle(cfg)
-    except Exception as e:  # oracle refuses the configuration
-        res.status = 'skipped'; res.notes.append('oracle raised %s' % type(e).__name__)
-        return res
-    sl_shape = shape[2:]
-    flat_rows = np.concatenate([o_yl.reshape(-1, o_yl.shape[-1])] + [b.reshape(-1, b.shape[-1]) for b in o_yh], axis=0)
-
-    def _ap(x):
-        if cfg['dim'] == 1:
-            a, hs = oracles.wavedec_apply(cfg['wave'], cfg['mode'], x, cfg['J'])
-        else:
-            a, hs = oracles.wavedec2_apply(cfg['wave'], cfg['mode'], x, cfg['J'])
-        return np.concatenate([a.reshape(-1)] + [h.reshape(-1) for h in hs])
-    ok, dev = oracles.check_affine(_ap, flat_rows, sl_shape, rng)
-    if not ok:
-        res.status = 'error'; res.trace = 'oracle is not affine (dev %g)' % dev
-        return res
-    scale = D.gain([o_yl] + o_yh)
-    tau = Fraction(1, 10 ** 9) * Fraction(scale)
-    # ---- symbolic run -------------------------------------------------------------------
-    t0 = time.time()
-    with symtorch.symbolic():
-        x, ids = core.symin(shape)
-        so = core.outcome(lambda: _module(symtorch.sym(), cfg)(x))
-    res.symexec_s = time.time() - t0
-    res.funcs = sorted(T.STATE.funcs_entered)
-    # ---- real run on the basis -----------------------------------------------------------
-    E, n = D.basis_batch(shape)
-    ro = core.outcome(lambda: _real_apply(cfg, E))
-    if so[0] == 'unsupported':
-        res.status = 'inconclusive'; res.notes.append('symbolic engine: ' + so[1])
-        return res
-    if so[0] != ro[0] or (so[0] == 'raise' and so[1] != ro[1]):
-        res.status = 'error'; res.trace = 'symbolic outcome %r differs from real torch outcome %r' % (so[:2], ro[:2])
-        return res
-    if so[0] == 'raise':
-        if cfg['mode'] == 'reflect' and facts['shorter_than_filter']:
-            res.notes.append('legal raise in reflect mode (signal shorter than filter): ' + so[1])
-            res.nontrivial = True
-            return res
-        res.status = 'violation'
-        res.violations.append(dict(what='forward raises %s where PyWavelets returns coefficients' % so[1], facts=facts,
-                                   replay=dict(kind='raise'), reproduced=True))
-        return res
-    yl, yh = so[1]
-    ryl, ryh = ro[1]
-    # ---- structure ----------------------------------------------------------------------
-    exp_shapes = [tuple(shape[:2]) + o_yl.shape[:-1]] + [tuple(shape[:2]) + b.shape[:-1] for b in o_yh]
-    got_shapes = [tuple(yl.shape)] + [tuple(h.shape) for h in yh]
-    if got_shapes != exp_shapes:
-        res.status = 'violation'
-        real_shapes = [tuple(ryl.shape)] + [tuple(h.shape) for h in ryh]
-        res.violations.append(dict(what='band shapes %s differ from PyWavelets %s' % (got_shapes, exp_shapes), facts=facts,
-                                   replay=dict(kind='shape'), reproduced=real_shapes == got_shapes))
-        return res
-    # ---- engine validation: whole operator vs real torch ----------------------------------
-    dev = 0.0
-    for s_t, r_t in zip([yl] + list(yh), [ryl] + list(ryh)):
-        M, c0 = core.lin_table(s_t.a, ids)
-        Rm = D.unbatch(r_t, n, shape[0])
-        dev = max(dev, float(np.abs(M - Rm).max()) if M.size else 0.0, float(np.abs(c0).max()) if c0.size else 0.0)
-    res.validated = dev
-    if dev > 1e-10 * scale:
-        res.status = 'error'; res.trace = 'symbolic operator deviates from real torch by %g' % dev
-        return res
-    # ---- queries ------------------------------------------------------------------------
-    st = smt.Stats()
-    solver = smt.Solver(stats=st)
-    names = ['yl'] + ['yh%d' % (j + 1) for j in range(len(yh))]
-    impl = [yl.a] + [h.a for h in yh]
-    refs = [_ref_rows_for(cfg, o_yl, ids)] + [_ref_rows_for(cfg, b, ids) for b in o_yh]
-    sats = D.decide_bands(res, solver, impl, refs, tau, names)
-    # canary: a perturbed oracle must be refuted
-    if impl[0].size:
-        d = impl[0].reshape(-1)[0] - refs[0][0] + P.Poly.var(int(ids.reshape(-1)[0])) * Fraction(1, 10 ** 6)
-        cst = smt.Stats(); cs = smt.Solver(stats=cst); cs.keep_sample = False
-        v, m = cs.decide(d, tau)
-        if v != 'sat' or abs(d.evalq({a: m.get(a, Fraction(0)) for a in d.atoms()})) <= tau / 2:
-            res.status = 'error'; res.trace = 'canary query was not refuted (%s)' % v
-            return res
-    res.stats = st
-    for name, k, model in sats:
-        xv = core.model_array(model, ids)
-        rep = _replay_values(cfg, xv, name, k, float(tau))
-        res.violations.append(dict(what='coefficient %s[%d] differs from PyWavelets by %.3g (tau %.3g)' % (name, k, rep['diff'], float(tau)),
-                                   facts=facts, replay=dict(kind='values', x=xv.tolist(), band=name, k=int(k), tau=float(tau)),
-                                   reproduced=rep['reproduced']))
-    if res.violations:
-        res.status = 'violation'
+    in_specs, impl, ref = case(cfg)
+    # reflect mode may raise when the signal is shorter than the filter; it never returns different numbers
+    lincheck.check_linear(res, cfg, facts, in_specs, impl, ref, what='forward DWT',
+                          allowed_raise=lambda so: cfg['mode'] == 'reflect' and facts['shorter_than_filter'])
     return res
 
 
-def _replay_values(cfg, xv, name, k, tau):
-    rt = symtorch.real_torch()
-    yl, yh = _real_apply(cfg, xv)
-    got = [yl.detach().numpy()] + [h.detach().numpy() for h in yh]
-    B, C = cfg['B'], cfg['C']
-    exp = [[], *[[] for _ in yh]]
-    refl, refh = None, None
-    outs = []
-    for b in range(B):
-        for c in range(C):
-            if cfg['dim'] == 1:
-                a, hs = oracles.wavedec_apply(cfg['wave'], cfg['mode'], xv[b, c], cfg['J'])
-            else:
-                a, hs = oracles.wavedec2_apply(cfg['wave'], cfg['mode'], xv[b, c], cfg['J'])
-            outs.append([a] + hs)
-    names = ['yl'] + ['yh%d' % (j + 1) for j in range(len(yh))]
-    bi = names.index(name)
-    ref = np.stack([o[bi] for o in outs]).reshape(got[bi].shape) if got[bi].size == sum(o[bi].size for o in outs) else None
-    if ref is None:
-        return dict(reproduced=True, diff=float('inf'))
-    diff = abs(float(got[bi].reshape(-1)[k]) - float(ref.reshape(-1)[k]))
-    return dict(reproduced=diff > tau / 2, diff=diff)
-
-
 def replay(payload):
-    cfg = payload['config']; rp = payload['replay']
     core.begin()
-    if rp['kind'] == 'values':
-        r = _replay_values(cfg, np.array(rp['x']), rp['band'], rp['k'], rp['tau'])
-        return dict(reproduced=r['reproduced'], detail=r)
-    shape = _shape(cfg)
-    ro = core.outcome(lambda: _real_apply(cfg, np.zeros(shape)))
-    try:
-        o_yl, o_yh = _oracle(cfg)
-    except Exception:
-        return dict(reproduced=False, detail='oracle raises')
-    if rp['kind'] == 'raise':
-        return dict(reproduced=ro[0] == 'raise', detail=ro[:2])
-    exp = [tuple(shape[:2]) + o_yl.shape[:-1]] + [tuple(shape[:2]) + b.shape[:-1] for b in o_yh]
-    if ro[0] != 'ok':
-        return dict(reproduced=True, detail=ro[:2])
-    got = [tuple(ro[1][0].shape)] + [tuple(h.shape) for h in ro[1][1]]
-    return dict(reproduced=got != exp, detail=dict(got=got, expected=exp))
+    in_specs, impl, ref = case(payload['config'])
+    return lincheck.replay_generic(payload, in_specs, impl, ref)
